@@ -7,6 +7,7 @@ CONSTANTS
  DedupMode = "peer+id"
  AtomicDedup = TRUE
  AllowRelay = TRUE
+ SigCache = "none"
 CONSTRAINT Mark
 POSTCONDITION Report
 CHECK_DEADLOCK FALSE
